@@ -7,6 +7,7 @@ import (
 	"sync"
 	"sync/atomic"
 	"testing"
+	"testing/synctest"
 	"time"
 
 	res "github.com/jirenius/go-res"
@@ -241,9 +242,14 @@ func TestC03Stress(t *testing.T) {
 		yield := rapid.SampledFrom([]int{0, 100, 400}).Draw(rt, "yield")
 		delay := rapid.IntRange(0, 300).Draw(rt, "shutdownDelayMicros")
 		nshut := rapid.SampledFrom([]int{1, 1, 2, 4}).Draw(rt, "shutdownCalls")
+		blocking := rapid.IntRange(0, 2).Draw(rt, "blockingConn") == 0
 		s := res.NewService("svc")
 		s.SetWorkerCount(workers)
 		s.SetLogger(nil)
+		if blocking {
+			// a connection that blocks on a full in channel, and a small channel
+			s.SetInChannelSize(rapid.SampledFrom([]int{1, 4, 16}).Draw(rt, "inch"))
+		}
 		var afterShutdown, running int64
 		var stopped atomic.Bool
 		body := func() {
@@ -272,6 +278,7 @@ func TestC03Stress(t *testing.T) {
 		}
 		for c := 0; c < cycles; c++ {
 			conn := fakeconn.New()
+			conn.Blocking = blocking
 			served := make(chan struct{})
 			s.SetOnServe(func(*res.Service) { close(served) })
 			exited := make(chan error, 1)
@@ -378,5 +385,88 @@ func TestC03Stress(t *testing.T) {
 			rt.Fatalf("%d callbacks started after Shutdown had returned", n)
 		}
 		ev.Case(cycles > 1 || delay < 50, evid.Hash("c03stress", workers, cycles, yield, delay), "stress")
+	})
+}
+
+// TestC03ServeFailure (bubble): a Serve whose k-th subscription is refused by the
+// connection must return (exactly: no goroutine may stay blocked), close the connection
+// once and leave the service servable again.
+func TestC03ServeFailure(t *testing.T) {
+	ev := evid.For("C03")
+	rapid.Check(t, func(rt *rapid.T) {
+		workers := rapid.SampledFrom([]int{1, 2, 8}).Draw(rt, "workers")
+		k := rapid.IntRange(1, 5).Draw(rt, "failNth")
+		queue := rapid.SampledFrom([]string{"<default>", ""}).Draw(rt, "queue")
+		var msg string
+		func() {
+			defer func() {
+				if v := recover(); v != nil {
+					msg = fmt.Sprintf("bubble ended abnormally (goroutines left blocked?): %v", v)
+				}
+			}()
+			synctest.Test(t, func(*testing.T) {
+				s := res.NewService("svc")
+				s.SetWorkerCount(workers)
+				s.SetLogger(nil)
+				if queue != "<default>" {
+					s.SetQueueGroup(queue)
+				}
+				ran := 0
+				s.Handle("g.$id", res.Access(res.AccessGranted), res.GetModel(func(r res.ModelRequest) { r.NotFound() }), res.Call("do", func(r res.CallRequest) { r.OK(nil) }))
+				bad := fakeconn.New()
+				fired := false
+				bad.FailSubscribe = func(subject string, n int) error {
+					if n == k {
+						fired = true
+						return fmt.Errorf("injected subscribe failure")
+					}
+					return nil
+				}
+				ret := make(chan error, 1)
+				go func() { ret <- s.Serve(bad) }()
+				synctest.Wait()
+				if !fired {
+					// fewer subscriptions than k: the service simply runs
+					_ = s.Shutdown()
+					<-ret
+					return
+				}
+				select {
+				case <-ret:
+				default:
+					msg = fmt.Sprintf("Serve neither serves nor returns after its subscription %d was refused: every goroutine is blocked", k)
+					// unblock what can be unblocked so that the bubble can end
+					_ = s.Shutdown()
+					return
+				}
+				if bad.Closed != 1 {
+					msg = fmt.Sprintf("after a refused subscription the connection was closed %d times, expected once", bad.Closed)
+					return
+				}
+				// the service must be servable again
+				good := fakeconn.New()
+				served := make(chan struct{})
+				s.SetOnServe(func(*res.Service) { close(served) })
+				go func() { ret <- s.Serve(good) }()
+				synctest.Wait()
+				select {
+				case <-served:
+				default:
+					msg = "after a Serve that failed on a refused subscription the service cannot be served again"
+					return
+				}
+				_ = s.With("svc.g.1", func(res.Resource) { ran++ })
+				synctest.Wait()
+				if ran != 1 {
+					msg = fmt.Sprintf("a With callback on the re-served service ran %d times", ran)
+				}
+				_ = s.Shutdown()
+				<-ret
+			})
+		}()
+		ev.Case(true, evid.Hash("servefail", workers, k, queue), "serve-failure")
+		if msg != "" {
+			rt.Fatalf("%s (workers %d, queue %q)", msg, workers, queue)
+		}
 	})
 }
